@@ -24,7 +24,8 @@
 From Coq Require Import List Arith NArith Bool.
 From MV.gen Require Import GenStart.
 From Coq.Strings Require Import Byte.
-From MV Require Import Bytes StartModel StartProofs StartPathModel StartPathProofs.
+From MV Require Import Bytes StartModel StartProofs StartPathModel StartPathProofs StartSearchModel StartSearchProofs.
+From MV Require Import StartFdModel StartFdProofs.
 Import ListNotations.
 
 (* For every number of processes and every interleaving of their start-up steps and SIGKILLs:
@@ -37,6 +38,20 @@ Theorem C15_single_holder : forall hist s0 sched s,
   (forall p, at_serve s p = true -> serving s p = true).
 Proof. exact single_holder_reach. Qed.
 Print Assumptions C15_single_holder.
+
+(* The first clause said directly: no interleaving of any number of starts and SIGKILLs reaches a state in which two
+   live processes are bound (alive, listening on a socket they hold) — for every k, among processes 0..k-1. *)
+Theorem C15_never_two_bound : forall hist s0 sched s k,
+  run init hist = Some s0 -> quiet s0 -> starts_and_crashes sched = true -> run s0 sched = Some s ->
+  two_bound s k = false.
+Proof. exact never_two_bound. Qed.
+Print Assumptions C15_never_two_bound.
+
+(* The search the check runs on the program text the daemon shows under strace (StartSearchModel.xstep, explored by
+   the extracted oracle for a two_bound state) is, on the expected program, this very transition system. *)
+Theorem C15_search_semantics : forall sched s, xrun (map XP prog) s sched = run s sched.
+Proof. exact xrun_prog. Qed.
+Print Assumptions C15_search_semantics.
 
 (* Only the holder ever executes an unlink / bind / write on the socket, pid or seed name (or an unlink
    of the lock name); a step of any other process and a SIGKILL of any process leave the socket, pid and
@@ -151,15 +166,36 @@ Proof. exact single_holder_needs_no_clean_stop. Qed.
 Print Assumptions C15_single_holder_needs_no_clean_stop.
 
 (* What lock.c asks the kernel for, as observed from the current source: O_CREAT without O_EXCL, a
-   created mode its own fstat check accepts, a non-blocking exclusive whole-file lock, exit on EAGAIN,
-   and no unlink on either path of lock_create without --force. *)
+   created mode its own fstat check accepts, a non-blocking exclusive whole-file lock, exit on EAGAIN whatever an
+   F_GETLK answers before or after it, no unlink on either path of lock_create without --force, and no query of
+   the lock before the attempt to take it (try, then ask — not ask, then try). *)
 Theorem C15_lock_call_shape :
   lock_open_creat = true /\ lock_open_excl = false /\ stat_ok lock_inode = true /\
   lock_stat_accepts_nonregular = false /\
   lock_cmd_nonblocking = true /\ lock_type_exclusive = true /\ lock_whole_file = true /\
-  lock_busy_exits = true /\ lock_free_exits = false /\ lock_busy_unlinks = 0%N /\ lock_free_unlinks = 0%N.
+  lock_busy_exits = true /\ lock_free_exits = false /\ lock_busy_unlinks = 0%N /\ lock_free_unlinks = 0%N /\
+  lock_getlk_first = false /\ lock_getlk_held_exits = true.
 Proof. repeat split; reflexivity. Qed.
 Print Assumptions C15_lock_call_shape.
+
+(* The lock is a property of a DESCRIPTOR: StartModel's lockfd stays open until CloseLock by construction.  In the
+   process the descriptor table is explicit (StartFdModel: open = lowest free number, dup2 (x, n) closes n).  For every
+   initial table (any of 0-2 closed at exec, anything else open) and anything opened before the lock, the start-up of
+   the CURRENT source (gen/GenStart.main_sanitizes_std_fds, fini_dup2_targets) ends daemonize_fini with the lock
+   descriptor still the lock file and the socket descriptor still the socket. *)
+Theorem C15_lock_descriptor_survives_daemonize : forall t0 pre,
+  fds_intact (start_fds main_sanitizes_std_fds t0 pre) = true.
+Proof. exact current_start_keeps_fds. Qed.
+Print Assumptions C15_lock_descriptor_survives_daemonize.
+
+(* Defect D6 (repaired in /repo by sanitize_std_fds): without that step, a start with descriptors 0-2 closed puts the
+   lock file on descriptor 0 and daemonize_fini's dup2 of /dev/null closes it — the fcntl lock is dropped silently. *)
+Theorem C15_closed_stdio_drops_lock_refuted : exists t0 pre,
+  fds_intact (start_fds false t0 pre) = false /\
+  lock_fd (start_fds false t0 pre) <= 2 /\
+  get (tab (start_fds false t0 pre)) (lock_fd (start_fds false t0 pre)) = Some Null.
+Proof. exact unsanitized_start_loses_lock. Qed.
+Print Assumptions C15_closed_stdio_drops_lock_refuted.
 
 (* non-vacuity: the premises are satisfiable and the conclusions are not trivially true.
    (1) three racing starts, one interleaving, then the winner is killed and a fourth start serves;
